@@ -2,6 +2,7 @@ package main
 
 import (
 	"bytes"
+	"encoding/hex"
 	"encoding/json"
 	"fmt"
 	"math"
@@ -578,7 +579,7 @@ func init() {
 		}
 		// keys, user names and passwords that begin and end with quote characters (nobody strips them), given by flag, by
 		// environment and in the configuration file; the long spellings of the options
-		for k, v := range []string{`"my key"`, `'k'`, `"`, `""`, `'single`, "`tick`"} {
+		for k, v := range []string{`"my key"`, `'k'`, `"`, `""`, `'single`, "`tick`", "my$ecretKey", "$HOME", "${PATH}x", "a$", "%HOME%", "~", "k#comment", "a;b"} {
 			c := base("quoted key " + v)
 			c.key, c.mustSucceed = v, true
 			ms := mkReq(c, 1, true)
@@ -894,7 +895,8 @@ func init() {
 		}
 		var jobs []*job
 		for _, l := range levels {
-			for _, sc := range []string{"ok", "refused", "garbled", "echo", "secret-request-fails split", "secret-request-fails", "secret-request-ok split"} {
+			for _, sc := range []string{"ok", "refused", "garbled", "echo", "secret-request-fails split", "secret-request-fails", "secret-request-ok split",
+				"usage no-request", "usage no-key", "usage no-request env", "secret-bytes-request-ok split", "secret-bytes-request-fails"} {
 				jobs = append(jobs, &job{level: l, scenario: sc, pw: g.secret(), phrase: g.secret()})
 			}
 			// legal passwords of unusual shape: blanks at the ends, a leading '=' or '-', quotes
@@ -928,18 +930,27 @@ func init() {
 					c.auth = frameReply([]rscp.Message{{Tag: rscp.RSCP_REQ_AUTHENTICATION, DataType: rscp.Container, Value: []rscp.Message{
 						{Tag: rscp.RSCP_AUTHENTICATION_USER, DataType: rscp.CString, Value: "loguser"},
 						{Tag: rscp.RSCP_AUTHENTICATION_PASSWORD, DataType: rscp.CString, Value: j.pw}}}})
-				case strings.HasPrefix(j.scenario, "secret-request"):
+				case strings.HasPrefix(j.scenario, "secret-request"), strings.HasPrefix(j.scenario, "secret-bytes"):
 					// requests that carry secrets (a pass phrase; a nested password item), not in first place; the device answers
 					// the first request and then fails (or answers everything)
 					q := func(s string) string { b, _ := json.Marshal(s); return string(b) }
 					reqText = `["INFO_REQ_SERIAL_NUMBER", ["RSCP_REQ_SET_ENCRYPTION_PASSPHRASE", ` + q(j.phrase) + `], ["BAT_REQ_DATA", [["RSCP_AUTHENTICATION_PASSWORD", "CString", ` + q(j.phrase) + `]]]]`
 					ok := frameReply([]rscp.Message{{Tag: rscp.INFO_SERIAL_NUMBER, DataType: rscp.CString, Value: "serial"}})
 					bad := replySpec{behaviour{kind: "closeBefore"}, "X"}
+					if strings.HasPrefix(j.scenario, "secret-bytes") {
+						// the same secrets given as byte arrays (nothing ties the data type to the tag)
+						var nums []string
+						for _, b := range []byte(j.phrase) {
+							nums = append(nums, strconv.Itoa(int(b)))
+						}
+						arr := "[" + strings.Join(nums, ",") + "]"
+						reqText = `["INFO_REQ_SERIAL_NUMBER", ["RSCP_REQ_SET_ENCRYPTION_PASSPHRASE", "ByteArray", ` + arr + `], ["BAT_REQ_DATA", [["RSCP_AUTHENTICATION_PASSWORD", "ByteArray", ` + arr + `]]]]`
+					}
 					switch j.scenario {
 					case "secret-request-fails split":
 						c.users = []replySpec{ok, bad, bad}
 						extra = []string{"-splitrequests"}
-					case "secret-request-fails":
+					case "secret-request-fails", "secret-bytes-request-fails":
 						c.users = []replySpec{bad}
 					default:
 						c.users = []replySpec{ok, ok, ok}
@@ -953,6 +964,17 @@ func init() {
 				c.args = append(append([]string{"-host", "127.0.0.1", "-port", "{PORT}", "-user", "loguser"}, pwArgs...), "-key", "logkey", "-debug", strconv.Itoa(j.level))
 				c.args = append(c.args, extra...)
 				c.args = append(c.args, reqText)
+				var env []string
+				switch j.scenario {
+				case "usage no-request":
+					// an error found after the options are read (nothing to send; standard input is empty): message and usage
+					c.args = c.args[:len(c.args)-1]
+				case "usage no-key":
+					c.args = append(append([]string{"-host", "127.0.0.1", "-port", "{PORT}", "-user", "loguser"}, pwArgs...), "-debug", strconv.Itoa(j.level), reqText)
+				case "usage no-request env":
+					c.args = []string{"-host", "127.0.0.1", "-port", "{PORT}", "-user", "loguser", "-key", "logkey", "-debug", strconv.Itoa(j.level)}
+					env = []string{"E3DC_PASSWORD=" + j.pw}
+				}
 				dir := filepath.Join(rundir, fmt.Sprintf("clilog-%d", i))
 				os.MkdirAll(dir, 0o755)
 				defer os.RemoveAll(dir)
@@ -970,13 +992,15 @@ func init() {
 				for k, a := range args {
 					args[k] = strings.ReplaceAll(a, "{PORT}", strconv.Itoa(dev.port()))
 				}
-				r := runCLI(dir, args, "", nil)
+				r := runCLI(dir, args, "", env)
 				j.prop = "pass"
 				if how := containsSecret(r.stderr+r.stdout, j.pw); how != "" {
 					j.prop = fmt.Sprintf("FAIL C11 with -debug %d the tool prints the password %s (scenario %s)", j.level, how, j.scenario)
 					if strings.Contains(how, "RECEIVED") && j.scenario == "echo" {
 						j.prop = fmt.Sprintf("FAIL C11 sig=password-reflected-by-peer a peer that echoes the authentication request gets the password into the trace dump of received bytes (-debug %d)", j.level)
 					}
+				} else if strings.HasPrefix(j.scenario, "secret-bytes") && containsByteForms(r.stderr+r.stdout, j.phrase) {
+					j.prop = fmt.Sprintf("FAIL C11 with -debug %d the tool prints the bytes of a secret-tagged request item (scenario %s): %s", j.level, j.scenario, trunc(strings.ReplaceAll(r.stderr, "\n", " / "), 200))
 				} else if containsAnyForm(r.stderr+r.stdout, j.phrase) {
 					j.prop = fmt.Sprintf("FAIL C11 with -debug %d the tool prints the value of a secret-tagged request item as text (scenario %s): %s", j.level, j.scenario, trunc(strings.ReplaceAll(r.stderr, "\n", " / "), 200))
 				}
@@ -991,4 +1015,20 @@ func init() {
 			cw.add("skip", "skip", fmt.Sprintf("N clilog level=%d %s", j.level, j.scenario), j.prop)
 		}
 	}
+}
+
+// containsByteForms: the secret as text, as contiguous hexadecimal digits, or as the decimal list fmt prints for a byte slice
+func containsByteForms(text, secret string) bool {
+	if containsAnyForm(text, secret) {
+		return true
+	}
+	h := hex.EncodeToString([]byte(secret))
+	if strings.Contains(strings.ToLower(text), h) {
+		return true
+	}
+	var nums []string
+	for _, b := range []byte(secret) {
+		nums = append(nums, strconv.Itoa(int(b)))
+	}
+	return strings.Contains(text, strings.Join(nums, " ")) || strings.Contains(text, strings.Join(nums, ","))
 }
